@@ -24,11 +24,11 @@ from common import MachineryError, Scratch, Verdict
 # per property: clause prefix(es), model families [(profile, n_quick, n_thorough)], monitor-only families, builds
 CONF = {
     "C01": dict(prefixes=("C01.",), builds=("pure", "cy"),
-                model=[("plain", 250, 1500), ("dag", 200, 1500), ("kinds3", 150, 1200), ("sync", 200, 1500),
-                       ("ctx", 100, 600), ("faults", 150, 1200), ("everything", 200, 2000), ("lazyfail", 100, 600), ("ival", 150, 1000),
-                       ("again", 250, 1500)],
-                monitor_only=[("cleanup", 400, 2500)],
-                big=[("big", 40, 400), ("everything", 200, 2000)], enum=True),
+                model=[("plain", 150, 1500), ("dag", 120, 1500), ("kinds3", 80, 1200), ("sync", 120, 1500),
+                       ("ctx", 60, 600), ("faults", 100, 1200), ("everything", 120, 2000), ("lazyfail", 60, 600), ("ival", 80, 1000),
+                       ("again", 150, 1500), ("nonasync", 80, 800)],
+                monitor_only=[("cleanup", 250, 2500)],
+                big=[("big", 25, 400), ("everything", 100, 2000)], enum=True),
     "C02": dict(prefixes=("C02.",), builds=("pure",),
                 model=[("faults", 500, 5000), ("lazyfail", 250, 2500), ("syncfaults", 250, 3000), ("ctxfaults", 200, 2000), ("basefaults", 300, 3000),
                        ("everything", 200, 3000)],
@@ -206,6 +206,8 @@ def main():
         if conf.get("enum"):
             if tier == "quick":
                 en = plang.enum_trees(2, 2, 2, ("ok",), ((0, 0),)) + plang.enum_trees(3, 1, 2, ("ok",), ((1, 0),))
+                if pid == "C01":
+                    en = en[::2]          # C01 replays on two builds: every second program of the complete family (the rest in thorough)
                 desc = "all tree programs with <=2 tasks x <=2 yields x <=2 leaves, and <=3 tasks x 1 yield, 2 kinds"
             else:
                 bs = ((0, 0), (1, 0), (0, 1))
